@@ -18,10 +18,17 @@
 (* (RestartLoad: newest snapshot file that the WAL records and whose index <= durable     *)
 (* commit, restore its checkpoint or clean the store; RestartReplay: WAL tail into raft). *)
 (*                                                                                        *)
-(* The model is written the way the code orders things: processReady publishes the        *)
-(* committed entries of a Ready to the apply loop BEFORE persistRaftState, and in a       *)
-(* 1-replica group an entry is appended and committed in the same Ready.  SafePublish =   *)
-(* TRUE is the etcd-style repair (never hand out entries that are not yet in the WAL).    *)
+(* Ordering of publish and persist.  Until commit 8d8be68 processReady published the      *)
+(* committed entries of a Ready to the apply loop BEFORE persistRaftState; in a 1-replica *)
+(* group an entry is appended and committed in the same Ready, so a client was answered   *)
+(* before the WAL write.  SafePublish = FALSE is that old order; it is kept as the SPEC    *)
+(* MUTANT that documents why the guard is needed: MC_ZNode_single_acked.cfg refutes       *)
+(* AckedDurable with it (Propose, TakeReady, Publish, TakeBatch, ApplyEntry, Trigger,     *)
+(* Crash, RestartLoad, RestartReplay), and that counterexample is what stage isolate-s2   *)
+(* of C06 replays on the real code with the hold-mode hooks.  SafePublish = TRUE is the    *)
+(* FAITHFUL model of the code since 8d8be68 (a Ready whose committed entries are still    *)
+(* unstable is persisted before it is published): MC_ZNode_single_safe.cfg,               *)
+(* MC_ZNode_leader.cfg and MC_ZNode_follower.cfg use it and satisfy every property.       *)
 (*                                                                                        *)
 (* Crash model: process kill.  What a step wrote is on disk when the step is over.        *)
 (*                                                                                        *)
@@ -46,7 +53,8 @@ CONSTANTS MaxOps,      \* number of client operations
           MaxTimeouts, \* client-side timeouts explored
           Role,        \* "single" | "leader" | "follower"
           Persistent,  \* TRUE: the engine's own files survive a crash (pebble); FALSE: mem
-          SafePublish, \* TRUE: the repair - hand out only entries already in the WAL
+          SafePublish, \* TRUE: the code since 8d8be68 - hand out only entries already in the WAL;
+                       \* FALSE: the old order (spec mutant, refuted by AckedDurable)
           Mutant       \* "" = the design; otherwise one guard is removed (self-test)
 
 VARIABLES
